@@ -401,14 +401,16 @@ def MInv2 : MState → Prop
   | .dead => False
 
 /-- the step is inside the domain of the refinement: roots are non-zero, an empty-slot insertion is under a known
-root at or after its first slot (or re-inserts an existing node), and `UpdateJustified` leaves the finalized
+root at or after its first slot (or re-inserts an existing node), a new block root is not one that a vote still
+refers to (a root identifies one block: a pruned block does not come back as another one), and `UpdateJustified` leaves the finalized
 checkpoint alone (so nothing is pruned) -/
 def StepOK (st : MState) (op : Op) : Prop :=
   match op, st with
   | .init _ ar _ _ _ _ _ _, _ => ar ≠ 0
   | .slot p s _ _, .live fc =>
     p ≠ 0 ∧ ((aGet fc.pa.indices ⟨s, p⟩).isSome ∨ ∃ s0, aGet fc.pa.blockSlots p = some s0 ∧ s0 ≤ s)
-  | .block p r _ _ _, .live _ => p ≠ 0 ∧ r ≠ 0
+  | .block p r _ _ _, .live fc =>
+    p ≠ 0 ∧ r ≠ 0 ∧ (aGet fc.pa.blockSlots r = none → ∀ v ∈ fc.votes, v.next.root ≠ r ∧ v.cur.root ≠ r)
   | .att _ r s, .live _ => ¬ (r = 0 ∧ s = 0)
   | .justify _ _ f _, .live fc => f = fc.finalized
   | _, _ => True
@@ -431,7 +433,7 @@ theorem stepLive_inv2 (fc : FC) (hh : fc.held = false) (I : FI fc) (op : Op) (ho
   cases op with
   | init => exact ⟨hh, I⟩
   | slot p s j f => exact finish_inv2 _ _ (safeI_processSlot fc hh I p s j f hok.1 hok.2)
-  | block p r s j f => exact finish_inv2 _ _ (safeI_processBlock fc hh I p r s j f hok.1 hok.2)
+  | block p r s j f => exact finish_inv2 _ _ (safeI_processBlock fc hh I p r s j f hok.1 hok.2.1)
   | att v r s => exact finish_inv2 _ _ (safeI_processAttestation fc hh I v r s)
   | justify t j f b =>
     have I0 : FI { fc with pa := { fc.pa with sinkLog := [] } } :=
@@ -500,7 +502,9 @@ def stepOKb (st : MState) (op : Op) : Bool :=
   | .slot p s _ _, .live fc =>
     decide (p ≠ 0) && ((aGet fc.pa.indices ⟨s, p⟩).isSome ||
       (match aGet fc.pa.blockSlots p with | some s0 => decide (s0 ≤ s) | none => false))
-  | .block p r _ _ _, .live _ => decide (p ≠ 0) && decide (r ≠ 0)
+  | .block p r _ _ _, .live fc =>
+    decide (p ≠ 0) && decide (r ≠ 0) &&
+      ((aGet fc.pa.blockSlots r).isSome || fc.votes.all (fun v => decide (v.next.root ≠ r) && decide (v.cur.root ≠ r)))
   | .att _ r s, .live _ => decide (¬ (r = 0 ∧ s = 0))
   | .justify _ _ f _, .live fc => decide (f = fc.finalized)
   | _, _ => true
@@ -524,7 +528,12 @@ theorem stepOKb_sound (st : MState) (op : Op) (h : stepOKb st op = true) : StepO
     cases st with
     | none => trivial
     | dead => trivial
-    | live fc => simpa [stepOKb, StepOK] using h
+    | live fc =>
+      simp only [stepOKb, Bool.and_eq_true, Bool.or_eq_true, decide_eq_true_eq, List.all_eq_true] at h
+      refine ⟨h.1.1, h.1.2, fun hnone v hv => ?_⟩
+      rcases h.2 with h2 | h2
+      · rw [hnone] at h2; cases h2
+      · exact h2 v hv
   | justify t j f b =>
     cases st with
     | none => trivial
